@@ -1,0 +1,142 @@
+//go:build verif
+
+package pubsub
+
+import (
+	"sort"
+
+	"github.com/anyproto/any-sync/commonspace/pubsub/pubsubproto"
+	"github.com/anyproto/any-sync/net/streampool"
+	"github.com/anyproto/any-sync/util/crypto"
+)
+
+// Read-only accessors for the verification harness (build tag `verif` only).
+// Nothing here changes behaviour; with the tag off this file is not compiled.
+
+// VerifTrie wraps the unexported pattern trie.
+type VerifTrie struct{ t *patternTrie }
+
+func NewVerifTrie() *VerifTrie { return &VerifTrie{t: newPatternTrie()} }
+
+func (v *VerifTrie) Add(pattern string) bool     { return v.t.Add(pattern) }
+func (v *VerifTrie) Remove(pattern string) bool  { return v.t.Remove(pattern) }
+func (v *VerifTrie) Match(topic string) []string { return v.t.Match(topic, nil) }
+func (v *VerifTrie) Len() int                    { return v.t.Len() }
+
+// VerifNode is a structural copy of one trie node: the segment key it hangs under, its
+// refcount and stored pattern, and its children (a nil or empty next level gives no children).
+type VerifNode struct {
+	Key     string
+	Refs    int
+	Pattern string
+	Kids    []VerifNode
+}
+
+// Tree copies the trie structure (children sorted by segment key).
+func (v *VerifTrie) Tree() []VerifNode { return copyLevel(v.t.root) }
+
+func copyLevel(l *trieLevel) []VerifNode {
+	if l == nil {
+		return nil
+	}
+	keys := make([]string, 0, len(l.nodes)+2)
+	for k := range l.nodes {
+		keys = append(keys, k)
+	}
+	if l.pwc != nil {
+		keys = append(keys, wildcardOne)
+	}
+	if l.fwc != nil {
+		keys = append(keys, wildcardTail)
+	}
+	sort.Strings(keys)
+	out := make([]VerifNode, 0, len(keys))
+	for _, k := range keys {
+		n := l.child(k)
+		out = append(out, VerifNode{Key: k, Refs: n.refs, Pattern: n.pattern, Kids: copyLevel(n.next)})
+	}
+	return out
+}
+
+func VerifSplitTopic(topic string) []string { return append([]string(nil), splitTopic(topic)...) }
+
+func VerifInterestTag(spaceId, pattern string) string { return interestTag(spaceId, pattern) }
+
+// VerifSignPublish stamps identity and signature exactly as Publish does.
+func VerifSignPublish(key crypto.PrivKey, p *pubsubproto.Publish) error { return signPublish(key, p) }
+
+const VerifMsgIdLen = msgIdLen
+
+type VerifSpaceInterest struct {
+	Len  int
+	Tree []VerifNode
+}
+
+type VerifStreamInterest struct {
+	Account string
+	Total   int
+	BySpace map[string][]string // sorted patterns; an empty (non-nil) slice is an empty map entry
+}
+
+type VerifSnapshot struct {
+	Remote  map[string]VerifSpaceInterest
+	Streams map[uint32]VerifStreamInterest
+}
+
+// VerifServingSnapshot copies the serving-side interest bookkeeping under remoteMu.
+func VerifServingSnapshot(svc Service) VerifSnapshot {
+	s := svc.(*service)
+	s.remoteMu.Lock()
+	defer s.remoteMu.Unlock()
+	snap := VerifSnapshot{
+		Remote:  make(map[string]VerifSpaceInterest, len(s.remote)),
+		Streams: make(map[uint32]VerifStreamInterest, len(s.streams)),
+	}
+	for spaceId, si := range s.remote {
+		snap.Remote[spaceId] = VerifSpaceInterest{Len: si.trie.Len(), Tree: copyLevel(si.trie.root)}
+	}
+	for id, strm := range s.streams {
+		vi := VerifStreamInterest{Account: strm.account, Total: strm.total, BySpace: make(map[string][]string, len(strm.bySpace))}
+		for spaceId, patterns := range strm.bySpace {
+			l := make([]string, 0, len(patterns))
+			for p := range patterns {
+				l = append(l, p)
+			}
+			sort.Strings(l)
+			vi.BySpace[spaceId] = l
+		}
+		snap.Streams[id] = vi
+	}
+	return snap
+}
+
+// VerifLocalSnapshot copies the client-side (local) interest bookkeeping:
+// spaceId -> pattern -> number of handlers, plus trie length and the cap counter.
+type VerifLocal struct {
+	Subs    map[string]map[string]int
+	TrieLen map[string]int
+	Topics  map[string]int
+}
+
+func VerifLocalSnapshot(svc Service) VerifLocal {
+	s := svc.(*service)
+	s.localMu.Lock()
+	defer s.localMu.Unlock()
+	out := VerifLocal{Subs: map[string]map[string]int{}, TrieLen: map[string]int{}, Topics: map[string]int{}}
+	for spaceId, m := range s.localSubs {
+		out.Subs[spaceId] = map[string]int{}
+		for p, l := range m {
+			out.Subs[spaceId][p] = len(l)
+		}
+	}
+	for spaceId, t := range s.localTrie {
+		out.TrieLen[spaceId] = t.Len()
+	}
+	for spaceId, n := range s.localTopic {
+		out.Topics[spaceId] = n
+	}
+	return out
+}
+
+// VerifPool returns the service's private stream pool.
+func VerifPool(svc Service) streampool.StreamPool { return svc.(*service).pool }
